@@ -12,7 +12,7 @@ CONSTANTS
   G = 2
   R = 1
   Strict = FALSE
-  Phases <- Ph12
+  BootChoices <- PhCount
   Mtu = 1400
   Dts <- Dt1
   MaxFails = 0
@@ -22,5 +22,6 @@ CONSTANTS
 INIT Init
 NEXT Next
 VIEW viewE
+ACTION_CONSTRAINT SlowLink
 INVARIANT NeverCounts
 CHECK_DEADLOCK FALSE
